@@ -24,6 +24,7 @@ CONSTANTS
   CLEAN = FALSE
   MaxActs = 0
   BUG_CLEAN_REENTRANT = FALSE
+  BUG_NESTED_DROP_FLAG = FALSE
   RECORD = TRUE
 INVARIANT NoViolation
 INVARIANT StructInv
